@@ -175,6 +175,20 @@ def updown_layer(ctx, which, n=2):
             if k == 0:
                 L.to_existing_file("updown topranking", ["updown", "topranking", "-r", rp, "-q", qp, "-t", tp] + flags)
             L.spelled("updown topranking", ["updown", "topranking", "-r", rp, "-q", qp, "-t", tp] + flags, ["--table", "--no-fill"], files=[rp, qp, tp])
+            # every --size-X / --dist-X option on its own and in unequal pairs: each value reaches the bin it names
+            zero = dict(o, sizetotal=0, sizeup=0, sizedown=0, sizeside=0, sizesame=0, distall=0, distup=0, distdown=0, distside=0, distpush=0, table=True, nofill=False, ignore=[])
+            names = {"sizeup": "--size-up", "sizedown": "--size-down", "sizeside": "--size-side", "sizesame": "--size-same",
+                     "distup": "--dist-up", "distdown": "--dist-down", "distside": "--dist-side"}
+            combos = [{"distup": 1, "distdown": 1, "distside": 3}, {"distup": 3, "distdown": 3, "distside": 1}, {"distup": 2, "distdown": 1, "distside": 1},
+                      {"sizeup": 1, "sizedown": 2, "sizeside": 3, "sizesame": 1}, {"sizeup": 3, "sizedown": 1, "sizeside": 2, "sizesame": 2}]
+            cref, cqs, cts = udgen.make_inputs_crowded(rng, {"up": 5, "down": 6, "side": 6, "same": 3})     # every bin holds targets at several distances
+            crefb, cqb, ctb = gen.layout(rng, [("ref", cref)], "plain"), gen.layout(rng, cqs, "plain"), gen.layout(rng, cts, "plain")
+            crp, cqp, ctp = L.W("cref%d.fasta" % k, crefb), L.W("cq%d.fasta" % k, cqb), L.W("ct%d.fasta" % k, ctb)
+            for combo in (combos if k == 0 else [rng.choice(combos)]):
+                oo = dict(zero, **combo)
+                fl = [x for key, val in combo.items() for x in (names[key], str(val))] + ["--threshold-pair", repr(o["threshpair"]), "--threshold-target", str(o["threshtarg"]), "--table"]
+                L.same("updown topranking %s" % " ".join(fl[:2 * len(combo)]), ["updown", "topranking", "-r", crp, "-q", cqp, "-t", ctp] + fl,
+                       dict({"op": "topranking", "ref": cm.b64(crefb), "query": cm.b64(cqb), "target": cm.b64(ctb), "qtype": "fasta", "ttype": "fasta"}, **oo), files=[crp, cqp, ctp])
             if eol == "\n" and ign:
                 L.same("updown topranking --ignore FILE", ["updown", "topranking", "-r", rp, "-q", qp, "-t", tp, "--ignore", ip] + flags,
                        dict(base, ignore=ign), files=[rp, qp, tp, ip])
